@@ -2,6 +2,8 @@ package simrt
 
 import (
 	"cmp"
+	"fmt"
+	"reflect"
 	"slices"
 	"sync"
 	"unsafe"
@@ -307,4 +309,250 @@ func RandUint64() uint64 {
 	v := uint64(s.Tape.Draw(1<<16)) | uint64(s.Tape.Draw(1<<16))<<16 | uint64(s.Tape.Draw(1<<16))<<32 | uint64(s.Tape.Draw(1<<16))<<48
 	s.mu.Unlock()
 	return v
+}
+
+// ---- sync.Locker, sync.Cond, sync.Once, sync.Map.Range --------------------------------
+//
+// Rules for constructs the pinned tree hardly uses but an edited tree may: they keep the
+// invariant that no instrumented code ever blocks on (or even touches) a real mutex
+// while a run is active.
+
+// lockerPtr resolves a sync.Locker to the shadow-lock key and whether it is the read side.
+func lockerPtr(l sync.Locker) (p unsafe.Pointer, read, ok bool) {
+	switch m := l.(type) {
+	case *sync.Mutex:
+		return unsafe.Pointer(m), false, true
+	case *sync.RWMutex:
+		return unsafe.Pointer(m), false, true
+	}
+	v := reflect.ValueOf(l)
+	if v.Kind() == reflect.Pointer && v.Type().String() == "*sync.rlocker" {
+		return v.UnsafePointer(), true, true // (*RWMutex).RLocker(): same address as the RWMutex
+	}
+	return nil, false, false
+}
+
+// LockerLock / LockerUnlock: calls through the sync.Locker interface.
+func LockerLock(l sync.Locker, site uint32) {
+	if s := cur.Load(); s != nil {
+		if p, read, ok := lockerPtr(l); ok {
+			if read {
+				s.lockR(p, site)
+			} else {
+				s.lockW(p, site)
+			}
+			return
+		}
+	}
+	l.Lock()
+}
+
+func LockerUnlock(l sync.Locker, site uint32) {
+	if s := cur.Load(); s != nil {
+		if p, read, ok := lockerPtr(l); ok {
+			if read {
+				s.unlockR(p, site)
+			} else {
+				s.unlockW(p, site)
+			}
+			return
+		}
+	}
+	l.Unlock()
+}
+
+// CondWait: release the (shadow) lock, wait for Signal/Broadcast (FIFO like the runtime's
+// notify list), re-acquire.
+func CondWait(c *sync.Cond, site uint32) {
+	s := cur.Load()
+	if s == nil {
+		c.Wait()
+		return
+	}
+	p, read, ok := lockerPtr(c.L)
+	if !ok {
+		panic("simrt: sync.Cond with a Locker that is not a sync.Mutex/RWMutex")
+	}
+	t := s.enter()
+	if t == nil {
+		return
+	}
+	ls := s.lockFor(p)
+	if read {
+		if ls.readers == 0 {
+			s.failLocked("sim.unlock-unlocked", "Cond.Wait with the read lock not held")
+		} else {
+			ls.readers--
+		}
+	} else {
+		if ls.writer == nil {
+			s.failLocked("sim.unlock-unlocked", "Cond.Wait with the lock not held (fatal error in a real process)")
+		}
+		ls.writer = nil
+	}
+	if ls.writer == nil && ls.readers == 0 {
+		s.wakeWaitersLocked(p)
+	}
+	cp := unsafe.Pointer(c)
+	s.conds[cp] = append(s.conds[cp], t)
+	t.waitOn = cp
+	t.condWait = true
+	s.Counters["cond_wait"]++
+	for t.condWait {
+		s.parkLocked(t, stLockWait)
+	}
+	s.mu.Unlock()
+	if read {
+		s.lockR(p, site)
+	} else {
+		s.lockW(p, site)
+	}
+}
+
+func (s *Sim) condWake(c *sync.Cond, all bool, site uint32) {
+	t := s.enter()
+	if t == nil {
+		return
+	}
+	cp := unsafe.Pointer(c)
+	q := s.conds[cp]
+	n := 0
+	for len(q) > 0 && (all || n == 0) {
+		w := q[0]
+		q = q[1:]
+		w.condWait = false
+		if w.st == stLockWait {
+			w.st = stParked
+			w.resumed = false
+		}
+		n++
+	}
+	if len(q) == 0 {
+		delete(s.conds, cp)
+	} else {
+		s.conds[cp] = q
+	}
+	s.yieldLocked(t, site)
+	s.mu.Unlock()
+}
+
+func CondSignal(c *sync.Cond, site uint32) {
+	if s := cur.Load(); s != nil {
+		s.condWake(c, false, site)
+		return
+	}
+	c.Signal()
+}
+
+func CondBroadcast(c *sync.Cond, site uint32) {
+	if s := cur.Load(); s != nil {
+		s.condWake(c, true, site)
+		return
+	}
+	c.Broadcast()
+}
+
+// OnceDo serialises callers through a shadow lock keyed by the Once, so that a callback
+// that parks never leaves another task blocked on the Once's real mutex.
+func OnceDo(o *sync.Once, f func(), site uint32) {
+	s := cur.Load()
+	if s == nil {
+		o.Do(f)
+		return
+	}
+	p := unsafe.Pointer(o)
+	s.lockW(p, site)
+	defer s.unlockOnce(p)
+	o.Do(f)
+}
+
+func (s *Sim) unlockOnce(p unsafe.Pointer) {
+	s.mu.Lock()
+	if s.shutdown {
+		s.mu.Unlock()
+		return
+	}
+	if ls := s.locks[p]; ls != nil {
+		ls.writer = nil
+		s.wakeWaitersLocked(p)
+	}
+	s.mu.Unlock()
+}
+
+// OnceFunc and friends: like the sync functions, on a shadow-locked Once.
+func OnceFunc(f func()) func() {
+	var o sync.Once
+	g := sync.OnceFunc(f) // keeps the panic-replay semantics of the original
+	return func() { onceCall(&o, g) }
+}
+
+func onceCall(o *sync.Once, g func()) {
+	s := cur.Load()
+	if s == nil {
+		g()
+		return
+	}
+	p := unsafe.Pointer(o)
+	s.lockW(p, 3)
+	defer s.unlockOnce(p)
+	g()
+}
+
+func OnceValue[T any](f func() T) func() T {
+	var o sync.Once
+	g := sync.OnceValue(f)
+	return func() (v T) { onceCall(&o, func() { v = g() }); return v }
+}
+
+func OnceValues[T1, T2 any](f func() (T1, T2)) func() (T1, T2) {
+	var o sync.Once
+	g := sync.OnceValues(f)
+	return func() (a T1, b T2) { onceCall(&o, func() { a, b = g() }); return a, b }
+}
+
+// SyncMapRange visits a snapshot of the map in a seeded order (keys ordered by their
+// printed form, then permuted from the tape).
+func SyncMapRange(m *sync.Map, f func(k, v any) bool) {
+	s := cur.Load()
+	if s == nil {
+		m.Range(f)
+		return
+	}
+	type kv struct {
+		k, v any
+		s    string
+	}
+	var all []kv
+	m.Range(func(k, v any) bool {
+		all = append(all, kv{k, v, fmt.Sprintf("%T:%v", k, k)})
+		return true
+	})
+	slices.SortStableFunc(all, func(a, b kv) int { return cmp.Compare(a.s, b.s) })
+	if len(all) > 1 {
+		s.mu.Lock()
+		if !s.shutdown {
+			s.Counters["map_order"]++
+			for i := len(all) - 1; i > 0; i-- {
+				j := i - s.Tape.Draw(i+1)
+				all[i], all[j] = all[j], all[i]
+			}
+		}
+		s.mu.Unlock()
+	}
+	for _, e := range all {
+		if v, ok := m.Load(e.k); ok { // still present (Range may miss or see concurrent changes; either is legal)
+			if !f(e.k, v) {
+				return
+			}
+		}
+	}
+}
+
+// TimerFunc wraps the callback of time.AfterFunc / context.AfterFunc: the timer goroutine
+// parks until the scheduler hands it the token.
+func TimerFunc(f func(), site uint32) func() {
+	return func() {
+		Resume(site)
+		f()
+	}
 }
